@@ -24,6 +24,7 @@ import struct
 
 import txaio
 
+from . import c10_enc as X
 from .wamp_harness import Outcome, RouterPeer
 
 MISSING = "<missing>"
@@ -228,6 +229,17 @@ class CaseRun:
         self.falsy_at_call = [False] * n
         self._big_cache = {}
         self._big_target = {}
+        # payload-codec dimension: the session has a key ring (public API set_payload_codec), INVOCATIONs may arrive
+        # end-to-end encrypted; the harness is the remote caller and seals / opens payloads with PyNaCl itself
+        self.enc = case.get("enc") or None
+        self.codec_on = bool(self.enc and self.enc.get("session_codec", True))
+        self.codec_at_delivery = [None] * n           # was a payload codec active when the INVOCATION was delivered
+        self.codec_at_reply = [None] * n              # ... when the endpoint's outcome was produced / it was cancelled
+        self.undeliv = [None] * n                     # reason why the callee cannot decrypt this INVOCATION
+        self.keyring = None
+
+    def is_enc(self, i):
+        return bool(self.enc and self.invs[i].get("enc"))
 
     # -- set-up ---------------------------------------------------------------------------------
     def _session_factory(self):
@@ -241,6 +253,9 @@ class CaseRun:
         def make():
             s = C10Session()
             s.traceback_app = bool(run.case.get("traceback_app"))
+            if run.enc and run.enc.get("session_codec", True):
+                run.keyring = X.make_keyring(run.enc.get("keys", "default"), run.enc.get("view", "resp"))
+                s.set_payload_codec(run.keyring)
             return s
         return make
 
@@ -402,9 +417,11 @@ class CaseRun:
         rid = self.invs[i]["rid"]
         spec = kind.split(":", 1)[1]
         if self.limit is None:
-            target = 70000 if spec in ("+1", "0", "-1") else 200000
+            target = 70000 if spec in ("+1", "0", "-1", "/2") else 200000
         elif spec == "x2":
             target = self.limit * 2
+        elif spec == "/2":
+            target = self.limit // 2
         else:
             target = self.limit + int(spec)
         self._big_target[(i, what)] = target
@@ -555,7 +572,8 @@ class CaseRun:
                 prog = det.progress
                 snap = {"type": type(det).__name__, "caller": det.caller, "caller_authid": det.caller_authid,
                         "caller_authrole": det.caller_authrole, "procedure": det.procedure,
-                        "registration": getattr(det.registration, "id", None), "has_progress": prog is not None}
+                        "registration": getattr(det.registration, "id", None), "has_progress": prog is not None,
+                        "enc_algo": det.enc_algo}
             except Exception as e:
                 snap = {"type": type(det).__name__, "error": repr(e)}
         rec = {"pi": pi, "args": list(args), "kwargs": kw, "det": snap,
@@ -587,6 +605,19 @@ class CaseRun:
         d.update(inv.get("caller") or {})
         shape = inv["shape"]
         m = [68, inv["rid"], 9000 + inv["proc"], d]
+        if self.is_enc(i):
+            a, k = self._clear_payload(i)
+            uri = d.get("procedure", proc_uri(inv["proc"]))       # the URI the callee looks its key up with
+            how = inv["enc"]
+            payload = X.seal(uri, a, k, "%s/%s" % (inv["tag"], inv["rid"]), keyid=1 if how == "wrong-key" else 0)
+            if how == "tampered":
+                pos = (inv["rid"] % (len(payload) - 24)) + 24
+                payload = payload[:pos] + bytes([payload[pos] ^ 0x20]) + payload[pos + 1:]
+            elif how == "garbage":
+                payload = payload[:17]
+            d.update(X.ENC_OPTS)
+            m.append(payload)
+            return m
         if shape == "args":
             m.append([inv["tag"]] + list(inv.get("extra") or []))
         elif shape == "both":
@@ -603,10 +634,36 @@ class CaseRun:
             raise ValueError(shape)
         return m
 
+    def _clear_payload(self, i):
+        """(args | None, kwargs | None) the caller put into an encrypted INVOCATION."""
+        inv = self.invs[i]
+        shape = inv["shape"]
+        if shape == "args":
+            return [inv["tag"]] + list(inv.get("extra") or []), None
+        if shape == "both":
+            return [inv["tag"]] + list(inv.get("extra") or []), dict(inv.get("kw") or {})
+        if shape == "kwargs":
+            kw = dict(inv.get("kw") or {})
+            kw["tag"] = inv["tag"]
+            return [], kw
+        if shape == "none":
+            return None, None
+        raise ValueError(shape)
+
     def _sent_payload(self, i):
+        if self.is_enc(i):
+            a, k = self._clear_payload(i)
+            return X.json_roundtrip(a or []), X.json_roundtrip(k or {})
         m = self._inv_message(i)
         a, k = norm_payload(m, 4)
         return self.rp.loads(self.rp.dumps(a)), self.rp.loads(self.rp.dumps(k))
+
+    def _roundtrip(self, i, o):
+        """A reply value as the remote caller decodes it: through the inner JSON of the cryptobox when the reply to
+        this invocation is encrypted, through the transport's serializer otherwise."""
+        if self.is_enc(i):
+            return X.json_roundtrip(o)
+        return self.rp.loads(self.rp.dumps(o))
 
     def _terminal_seen(self, i):
         return sum(1 for w in self.wire[i] if w[0] in "YE")
@@ -628,12 +685,12 @@ class CaseRun:
                 continue
             if m[0] == 70 and len(m) >= 3:
                 rid, opts = m[1], m[2] if isinstance(m[2], dict) else {}
-                a, k = norm_payload(m, 3)
-                rec = ("P" if opts.get("progress") else "Y", a, k, None, step, ln)
+                a, k, sealed = self._reply_payload(m, 3, opts)
+                rec = ("P" if opts.get("progress") else "Y", a, k, None, step, ln, sealed)
             elif m[0] == 8 and len(m) >= 5 and m[1] == 68:
                 rid = m[2]
-                a, k = norm_payload(m, 5)
-                rec = ("E", a, k, m[4], step, ln)
+                a, k, sealed = self._reply_payload(m, 5, m[3] if isinstance(m[3], dict) else {})
+                rec = ("E", a, k, m[4], step, ln, sealed)
             elif m[0] == 66 and len(m) == 3 and isinstance(m[2], int) and self.unreg_state.get(m[2] - 9000) == "requested" \
                     and (m[2] - 9000) not in self.unreg_req:
                 self.unreg_req[m[2] - 9000] = m[1]
@@ -646,6 +703,27 @@ class CaseRun:
                 self.unknown.append((rid, rec[0], step))
             else:
                 self.wire[i].append(rec)
+
+    def _reply_payload(self, m, at, opts):
+        """(args, kwargs, sealed) of a YIELD / ERROR; sealed: None = clear, 'opened' = cryptobox payload opened with the
+        harness' own key material, 'unopenable: ..' = announced as encrypted but PyNaCl cannot open it."""
+        if not opts.get("enc_algo"):
+            a, k = norm_payload(m, at)
+            return a, k, None
+        self.R.count("enc_replies_seen")
+        try:
+            if opts.get("enc_algo") != "cryptobox" or opts.get("enc_serializer") not in (None, "json"):
+                raise ValueError("enc_algo=%r enc_serializer=%r" % (opts.get("enc_algo"), opts.get("enc_serializer")))
+            if len(m) != at + 1 or not isinstance(m[at], (bytes, bytearray)):
+                raise ValueError("payload is not one binary")
+            _uri, a, k = X.open_(m[at])
+        except Exception as e:
+            return short(m[at:], 60), {}, "unopenable: %s" % type(e).__name__
+        if a is None:
+            a = []
+        if k is None:
+            k = {}
+        return a, k, "opened"
 
     def _do_feed(self, si, items, seg):
         rp = self.rp
@@ -686,7 +764,16 @@ class CaseRun:
                 self.delivered[i] = True
                 self.delivered_step[i] = si
                 in_this_feed.add(i)
-                if inv["shape"] == "none":
+                self.codec_at_delivery[i] = self.codec_on
+                if inv["plan"]["mode"] != "pending":
+                    self.codec_at_reply[i] = self.codec_on
+                if self.is_enc(i):
+                    self.R.count("enc_invocations_delivered")
+                    if not self.codec_on:
+                        self.undeliv[i] = "no-codec"
+                    elif inv["enc"] != "ok":
+                        self.undeliv[i] = inv["enc"]
+                if inv["shape"] == "none" and not self.undeliv[i]:
                     self.untagged.setdefault(inv["proc"], []).append(i)
                 pi_ = inv["proc"]
                 truth = self.case["procs"][pi_].get("truth")
@@ -717,6 +804,7 @@ class CaseRun:
                     point = "while-pending"
                     self.cancelled[i] = True
                     self.cancel_step[i] = si
+                    self.codec_at_reply[i] = self.codec_on
                 else:
                     point = "after-completion"
                 self.interrupts[i].append(point)
@@ -764,6 +852,8 @@ class CaseRun:
             return
         self.resolved[i] = True
         self.res_step[i] = self.cur_step
+        if not self.cancelled[i]:
+            self.codec_at_reply[i] = self.codec_on
         kind, f = p
         if self.fw == "tx":
             if f.called:
@@ -832,6 +922,14 @@ class CaseRun:
                             self.progress_late[i] += 1
                             self.R.count("late_progress_calls")
                         self._emit_progress(i, st[2], late)
+                elif op == "codec":
+                    # the application removes / re-installs its payload codec (public API) while calls are in flight
+                    if self.enc and self.keyring is not None:
+                        on = st[1] == "on"
+                        rp.session.set_payload_codec(self.keyring if on else None)
+                        if on != self.codec_on:
+                            self.R.count("codec_switched")
+                        self.codec_on = on
                 elif op == "adv":
                     rp.world.advance(st[1])
                 rp.world.settle()
@@ -877,10 +975,60 @@ class CaseRun:
         return bool(plan.get("progress_unconditional") and plan.get("progress") and not inv.get("rp")
                     and self.case["procs"][inv["proc"]].get("det") is not None)
 
+    def _raw_result(self, i):
+        """(args, kwargs | None) exactly as the session hands the endpoint's result to the payload codec."""
+        from autobahn.wamp.types import CallResult
+        v = self._out(i)
+        if isinstance(v, CallResult):
+            return list(v.results), dict(v.kwresults)
+        return [v], None
+
+    def _enc_wire_len(self, i):
+        """Predicted wire length of the encrypted YIELD for invocation i (plain codec arithmetic + box overhead)."""
+        inv = self.invs[i]
+        a, k = self._raw_result(i)
+        uri = (inv.get("caller") or {}).get("procedure", proc_uri(inv["proc"]))
+        n = len(X.inner_dumps(uri, a, k)) + X.OVERHEAD
+        return len(self.rp.dumps([70, inv["rid"], dict(X.ENC_OPTS), b"\x00" * n]))
+
+    def enc_class(self, i):
+        """Behaviour class of an END-TO-END ENCRYPTED invocation (the session has, had or lacks a payload codec)."""
+        inv = self.invs[i]
+        what, kind = inv["plan"]["out"]
+        if self.undeliv[i]:
+            return "enc-undecryptable"
+        if self.entry_raises(i):
+            return "enc-error"
+        if what == "raise":
+            return "enc-error-unserializable" if kind in ("app-unser", "app-unser-kw", "unmapped-unser") else "enc-error"
+        if self.codec_at_reply[i] is False:
+            return "enc-result-codec-removed"
+        try:
+            a, k = self._raw_result(i)
+        except Exception:
+            return "enc-error"
+        try:
+            X.json_roundtrip([a, k])
+        except Exception:
+            try:
+                self.rp.dumps([a, k])
+            except Exception:
+                return "enc-result-unencryptable"
+            return "enc-result-clear-only"      # the transport's serializer could carry it in clear
+        if self.limit is not None:
+            ln = self._enc_wire_len(i)
+            if ln > self.limit + 16:
+                return "enc-result-oversized"
+            if ln >= self.limit - 16:
+                return "enc-result-near-limit"
+        return "enc-result"
+
     def inv_class(self, i):
         """Behaviour class of an invocation as PLANNED + the size arithmetic of the plain codec."""
         inv = self.invs[i]
         what, kind = inv["plan"]["out"]
+        if self.is_enc(i):
+            return self.enc_class(i)
         if self.entry_raises(i):
             return "error-with-traceback" if (self.case.get("traceback_app") and self.limit is not None and self.limit <= 4096) else "error"
         if what == "ret":
@@ -898,6 +1046,8 @@ class CaseRun:
                 if self.limit is None:
                     return "result-large-unlimited"
                 spec = kind.split(":", 1)[1]
+                if spec == "/2":
+                    return "result-fits-limit"
                 return "result-oversized" if spec in ("x2",) or int(spec) > 0 else "result-fits-limit"
             return "result"
         if kind in ("app-unser", "app-unser-kw", "unmapped-unser"):
@@ -929,6 +1079,14 @@ class CaseRun:
         except Exception:
             return None
 
+    def expected_yield_sealed(self, i):
+        """(args, kwargs) an ENCRYPTED terminal YIELD must carry once opened (inner serialization is JSON)."""
+        try:
+            a, k = self._raw_result(i)
+            return X.json_roundtrip(a), X.json_roundtrip(k or {})
+        except Exception:
+            return None
+
     def judge(self):
         R = self.R
         case = self.case
@@ -946,7 +1104,9 @@ class CaseRun:
                 inv = self.invs[i]
                 d.update({"inv": i, "rid": inv["rid"], "plan": inv["plan"], "proc": case["procs"][inv["proc"]],
                           "class": self.inv_class(i), "interrupts": self.interrupts[i],
-                          "wire": [(w[0], short(w[1], 80), short(w[2], 80), w[3], w[4], w[5]) for w in self.wire[i][:8]],
+                          "wire": [(w[0], short(w[1], 80), short(w[2], 80), w[3], w[4], w[5], w[6]) for w in self.wire[i][:8]],
+                          "enc": inv.get("enc"), "enc_config": self.enc, "undecryptable": self.undeliv[i],
+                          "codec_at_reply": self.codec_at_reply[i],
                           "send_raised": self.send_exc_types.get(i),
                           "progress_raised": self.progress_raised[i]})
             d["escaped"] = getattr(self, "escaped", [])[:3]
@@ -998,22 +1158,44 @@ class CaseRun:
             chain = ">".join(self.send_exc.get(i, [])) or None
             if chain:
                 R.seen("send_failure_chains", "%s/%s" % (tk, chain))
+            # the reply has to pass the session's payload codec before it reaches send(): when the key ring cannot
+            # encode it, that - not a race or an unregistration - is the mechanism a missing / doubled reply is keyed by
+            codec_fail = bool(self.enc and ((self.codec_at_reply[i] and cls in (
+                "enc-error-unserializable", "error-unserializable", "enc-result-unencryptable", "enc-result-clear-only"))
+                or cls in ("enc-result-codec-removed", "enc-undecryptable")))
+            kcls = ("keyring-session-" + cls) if (self.enc and not self.is_enc(i) and self.codec_at_reply[i]) else cls
             seq = self.wire[i]
             terms = [w for w in seq if w[0] in "YE"]
             progs = [w for w in seq if w[0] == "P"]
             ncalls = len(self.calls[i])
-            completed = plan["mode"] != "pending" or self.resolved[i] or self.entry_raises(i)
+            enc_i = self.is_enc(i)
+            undeliv = bool(self.undeliv[i])
+            if self.enc:
+                R.seen("enc_config", "%s/%s/%s" % (self.enc.get("keys", "default"), self.enc.get("view", "resp"),
+                                                   "codec" if self.enc.get("session_codec", True) else "no-codec"))
+                if enc_i:
+                    R.count("enc_invocations_judged")
+                    R.seen("enc_classes", cls)
+                    R.seen("enc_modes", "%s/%s" % (plan["mode"], plan["out"][0]))
+                else:
+                    R.count("keyring_session_plain_invocations")
+            completed = plan["mode"] != "pending" or self.resolved[i] or self.entry_raises(i) or undeliv
             # ---- which terminal reply is due
             if self.cancelled[i]:
                 cause, want_n, want = "interrupt-while-pending", 1, "E"
             elif self.racy[i]:
                 # when send() failed the mechanism is the planned behaviour, not the race
-                cause, want_n, want = (cls if chain else "interrupt-same-read"), 1, "either"
+                cause, want_n, want = (kcls if (chain or codec_fail) else "interrupt-same-read"), 1, "either"
             elif not completed:
                 cause, want_n, want = "still-pending", 0, None
             else:
                 cause, want_n = cls, 1
-                want = "Y" if cls in ("result", "result-fits-limit", "result-large-unlimited") else "E"
+                want = "Y" if cls in ("result", "result-fits-limit", "result-large-unlimited", "enc-result") else "E"
+                if cls in ("enc-result-clear-only", "enc-result-codec-removed", "enc-result-near-limit"):
+                    # the statement demands exactly one terminal reply; whether the session fails the call or lets the
+                    # transport carry the value is C20's business (confidentiality), not decided here
+                    want = "either"
+                cause = kcls      # "keyring-session-..": a clear invocation served by a session that holds a key ring
             if any(p == "before-invocation" for p in self.interrupts[i]) and cause == cls:
                 R.count("interrupt_before_then_normal")
             gone = self.gone_step.get(inv["proc"])
@@ -1022,7 +1204,7 @@ class CaseRun:
             if across:
                 R.count("replies_due_after_unregistered")
                 R.seen("unregistered_across", "%s/%s" % (plan["out"][0], "cancel" if self.cancelled[i] else "resolve"))
-                if not chain:
+                if not chain and not codec_fail:
                     cause = "unregistered-while-pending"
             mode_cause = cause
             # ---- endpoint call count
@@ -1030,6 +1212,8 @@ class CaseRun:
             if ncalls > 1:
                 V("endpoint-call-count", "invoked-%d-times" % min(ncalls, 3), "endpoint invoked %d times for one INVOCATION" % ncalls, i,
                   fold_transport=True)
+            elif ncalls == 0 and undeliv:
+                R.count("enc_undecryptable_not_invoked")       # nothing to invoke the endpoint with: the ERROR is the reply
             elif ncalls == 0 and not self.racy[i]:
                 V("endpoint-call-count", "not-invoked", "endpoint never invoked for a delivered INVOCATION", i, fold_transport=True)
             # ---- R1 exactly one terminal reply
@@ -1051,9 +1235,16 @@ class CaseRun:
                 if want != "either" and t[0] != want:
                     V("wrong-terminal-type", mode_cause, "expected %s, the wire shows %s (%s)" % (
                         {"Y": "a YIELD", "E": "an ERROR"}[want], {"Y": "a YIELD", "E": "an ERROR"}[t[0]], t[3]), i, chain)
+                elif t[0] == "Y" and t[6] is not None and t[6] != "opened":
+                    V("wrong-result-payload", "encrypted-yield-unopenable", "the YIELD announces an encrypted payload that the "
+                      "caller's key cannot open (%s): it does not carry the endpoint's value" % t[6], i, fold_transport=True)
                 elif t[0] == "Y":
-                    exp = self.expected_yield(i)
+                    exp = self.expected_yield_sealed(i) if t[6] == "opened" else self.expected_yield(i)
                     R.count("yield_payload_compared")
+                    if t[6] == "opened":
+                        R.count("enc_yield_opened_compared")
+                    elif enc_i:
+                        R.count("enc_invocation_answered_in_clear")      # reported by C20, not a C10 clause
                     if exp is None:
                         V("wrong-terminal-type", mode_cause, "YIELD for a result the plain codec cannot encode", i, chain)
                     elif (t[1], t[2]) != exp:
@@ -1073,6 +1264,24 @@ class CaseRun:
                     R.count("unserializable_mapped_to_error")
                 if cause == "interrupt-while-pending":
                     R.count("cancel_error_seen")
+                    if enc_i:
+                        R.count("enc_cancel_error_seen")
+                if enc_i and t[0] == "E":
+                    R.count("enc_error_replies")
+                    R.seen("enc_error_uris", str(t[3]).replace("wamp.error.", "w.e."))
+                    if t[6] == "opened":
+                        R.count("enc_error_opened")
+                    if cls in ("enc-result-unencryptable", "enc-result-clear-only") and mode_cause == cls:
+                        R.count("enc_unencryptable_mapped_to_error")
+                    if cls == "enc-undecryptable":
+                        R.count("enc_undecryptable_mapped_to_error")
+                        R.seen("enc_undecryptable_reasons", str(self.undeliv[i]))
+                    if cls == "enc-result-codec-removed" and mode_cause == cls:
+                        R.count("enc_codec_removed_judged")
+                    if cls == "enc-result-oversized" and mode_cause == cls:
+                        R.count("enc_oversized_mapped_to_error")
+                if self.enc and not enc_i and t[0] == "E" and t[6] == "opened":
+                    R.count("keyring_session_error_opened")
             else:
                 R.count("pending_silent_checked")
             # ---- R2 progress discipline
@@ -1096,8 +1305,17 @@ class CaseRun:
                 if w[0] in "YE":
                     break
                 got.append((w[1], w[2]))
+            sealed_p = [w[6] for w in seq if w[0] == "P"]
+            if any(x is not None and x != "opened" for x in sealed_p):
+                V("progress-mismatch", "encrypted-progress-unopenable", "a progressive YIELD announces an encrypted payload "
+                  "that the caller's key cannot open", i, fold_transport=True)
+            if "opened" in sealed_p:
+                R.count("enc_progress_opened", sealed_p.count("opened"))
             try:
-                exp_p = [(self.rp.loads(self.rp.dumps(a)), self.rp.loads(self.rp.dumps(k))) for a, k in self.progress_ok[i]]
+                if "opened" in sealed_p:
+                    exp_p = [(X.json_roundtrip(list(a)), X.json_roundtrip(k)) for a, k in self.progress_ok[i]]
+                else:
+                    exp_p = [(self.rp.loads(self.rp.dumps(a)), self.rp.loads(self.rp.dumps(k))) for a, k in self.progress_ok[i]]
             except Exception:
                 exp_p = None
             if exp_p is not None and (self.progress_ok[i] or got):
@@ -1134,7 +1352,8 @@ class CaseRun:
                     want_det = {"type": "CallDetails", "caller": c.get("caller"), "caller_authid": c.get("caller_authid"),
                                 "caller_authrole": c.get("caller_authrole"),
                                 "procedure": c.get("procedure", proc_uri(inv["proc"])),
-                                "registration": 9000 + inv["proc"], "has_progress": bool(inv.get("rp"))}
+                                "registration": 9000 + inv["proc"], "has_progress": bool(inv.get("rp")),
+                                "enc_algo": "cryptobox" if enc_i else None}
                     if snap == MISSING:
                         V("endpoint-details-mismatch", "not-passed", "call details were requested (%s) but not passed" % proc["det"], i,
                           fold_transport=True)
